@@ -49,6 +49,11 @@ fn layout_json(l: &Layout) -> Value {
 }
 
 fn content(dir: &str, file: &str) -> String {
+    if file == "+CONTENTS" {
+        // a well-formed packing list that names another package, another display file and a prefix: the
+        // database is the directory tree, not what the files inside say
+        return format!("@name other-9.9nb1\n@display +DESC\n@cwd /usr/pkg\n@pkgdep dep>=1\nbin/{}\n@comment {} of {}\n", dir.replace('/', "_"), file, dir);
+    }
     format!("{} of {}\nsecond line\n", file, dir)
 }
 
@@ -461,6 +466,11 @@ fn check_names(t: &mut Tally, scratch: &Path, id: usize, names: &[String]) {
         // (the statement is about a tree that holds still); a package obtained by a fresh
         // iteration afterwards must see the file as it is now.
         for p in handles.iter().take(3) {
+            // (a package reported under a name that is not one of the directories is a finding of
+            // the comparison below, not a reason to look for its files)
+            if !names.iter().any(|n| n == p.pkgname()) {
+                continue;
+            }
             let path = root.join(p.pkgname()).join("+DESC");
             let io = |e: std::io::Error| -> String { mc_core::run::machinery_fault(&format!("cannot rewrite a scratch file: {}", e)) };
             let old = std::fs::read_to_string(&path).unwrap_or_else(io);
@@ -516,7 +526,7 @@ fn metadata_histories(t: &mut Tally, n: usize) {
 /// `only`: replay exactly this sequence of calls (as recorded in a violation's case).
 fn metadata_histories_from(t: &mut Tally, n: usize, only: Option<&[String]>) {
     // (no blank-only value: whether that counts as empty is left open)
-    const VALS: [&str; 4] = ["", "x", "y\n", "two\nlines\n"];
+    const VALS: [&str; 7] = ["", "x", "y\n", "two\nlines\n", "@frobnicate\n", "@ignore x\nbin/a\n@pkgdep\n", "@name p-1\nbin/x\n"];
     let entries = [MetadataEntry::Comment, MetadataEntry::Contents, MetadataEntry::Desc, MetadataEntry::BuildInfo];
     let k = entries.len() * VALS.len();
     let mut pre = vec![];
@@ -846,9 +856,9 @@ fn main() {
             check_reiterate(t, &scratch, *i);
         });
     }
-    run.bound(format!("Metadata histories: all sequences of <= {} read_metadata calls over 4 entries x 4 values on one object; database roots: 5 spellings (non-UTF-8 name, symbolic link, trailing slash, dot segments)", run.pick(4, 5)));
+    run.bound(format!("Metadata histories: all sequences of <= {} read_metadata calls over 4 entries x 7 values (incl. packing-list text, well-formed and not) on one object; database roots: 5 spellings (non-UTF-8 name, symbolic link, trailing slash, dot segments)", run.pick(3, 4)));
     let mut t = Tally::new();
-    metadata_histories(&mut t, run.pick(4, 5));
+    metadata_histories(&mut t, run.pick(3, 4));
     check_roots(&mut t, &scratch);
     tables(&mut t);
     run.merge(t);
